@@ -187,6 +187,48 @@ pub async fn run_c11(w: &mut World, m: &mut Mon, r: &mut R, t: &Twin, max_len: u
             }
         }
     }
+    // directed: the group admin freezes the account; brackets on it are refused whoever signs them
+    // (the owner, or the admin who may otherwise act on a frozen account), and a bracket cannot be
+    // closed on an account that was frozen inside it
+    {
+        let abs = |p: usize| p as u64 + shift;
+        let small_borrow = |w: &World, who: solana_sdk::pubkey::Pubkey| {
+            ix::borrow(g, x, who, w.banks[t.b0].key, ta_b, w.token_program_of_bank(t.b0), 1000, {
+                let mut v = w.mint_prefix(t.b0);
+                v.extend(w.risk_metas(t.acct0, Some(t.b0), None));
+                v
+            })
+        };
+        let repay_all = |w: &World, who: solana_sdk::pubkey::Pubkey| ix::repay(g, x, who, w.banks[t.b0].key, ta_b, w.token_program_of_bank(t.b0), 0, Some(true), w.mint_prefix(t.b0));
+        // freeze inside the bracket (the account is not frozen yet)
+        let ixs = vec![ix::start_flashloan(x, ak, abs(2)), ix::set_freeze(g, x, admin.pubkey(), true), ix::end_flashloan(x, ak, w.risk_metas(t.acct0, None, None))];
+        let o = w.probe(m, &ixs, &signers).await;
+        shapes_run += 1;
+        m.r.eval();
+        m.r.count("C11.directed_shapes");
+        m.r.count(if o.ok() { "C11.directed_freeze_inside_bracket_accepted" } else { "C11.directed_freeze_inside_bracket_rejected" });
+        let fz = ix::set_freeze(g, x, admin.pubkey(), true);
+        if w.exec(m, &[fz], &[&admin]).await.ok() {
+            for who in [ak, admin.pubkey()] {
+                for shape in 0..3 {
+                    let ixs = match shape {
+                        0 => vec![ix::start_flashloan(x, who, abs(1)), ix::end_flashloan(x, who, w.risk_metas(t.acct0, None, None))],
+                        1 => vec![ix::start_flashloan(x, who, abs(3)), small_borrow(w, who), repay_all(w, who), ix::end_flashloan(x, who, w.risk_metas(t.acct0, None, None))],
+                        _ => vec![ix::start_flashloan(x, ak, abs(3)), small_borrow(w, admin.pubkey()), repay_all(w, admin.pubkey()), ix::end_flashloan(x, ak, w.risk_metas(t.acct0, None, None))],
+                    };
+                    let o = w.probe(m, &ixs, &signers).await;
+                    shapes_run += 1;
+                    m.r.eval();
+                    m.r.count("C11.directed_shapes");
+                    m.r.count("C11.directed_frozen_account_shapes");
+                    m.r.count(if o.ok() { "C11.directed_bracket_on_frozen_account_accepted" } else { "C11.directed_bracket_on_frozen_account_rejected" });
+                    m.r.distinct(&("c11-directed", "frozen", who == ak, shape, o.ok()));
+                }
+            }
+            let uf = ix::set_freeze(g, x, admin.pubkey(), false);
+            let _ = w.exec(m, &[uf], &[&admin]).await;
+        }
+    }
     m.r.add("C11.shapes_executed", shapes_run);
     m.r.add("C11.shapes_accepted", accepted);
     m.r.note(&format!("C11 alphabet: {:?}; exhaustive up to length {}, random up to {}", C11_SYMS, exhaustive_len, max_len));
